@@ -80,12 +80,13 @@ CHECKS = {
             "by computation).  Unambiguity and non-ASCII identifier validity are FALSE on the faithful model (C12_*_refuted) and recorded as findings K1-K4.  "
             "Names.v is tied to the code by evaluating both mappings in Coq on thousands of code points/strings per run.",
             "full for what holds; the injectivity / non-ASCII / class-name-collision halves are recorded findings"),
-    "C05": ("Coq theorems on Validate.build (no-value law for every element kind, never rejects, declared-member lemma, placeholder mechanism: supplied wins / omitted is visited) + vm_compute correspondence of constructed results on all subsets of supplied properties + direct oracle",
-            "C05_no_value_law and C05_no_value_never_rejects hold for every element and model class; C05_declared_member, C05_supplied_wins and "
-            "C05_omitted_is_visited describe, for every object, which element builds each declared property from what (its own value or no value) under which "
-            "name.  The composition of these into one end-to-end statement about the result dict is checked, not proved: Validate.build is run in Coq on every "
-            "subset case and must return exactly the implementation's result.  Findings K12-K14 recorded; F6 fixed (6ad4bca).",
-            "full for the no-value law; object half = lemmas + correspondence (end-to-end composition not proved)"),
+    "C05": ("Coq theorems on Validate.build (no-value law for every element kind, never rejects, declared-member lemma, placeholder mechanism, and C05_omitted_exposed: an omitted declared property is present under its Python name with what its element's no-value call returns) + vm_compute correspondence of constructed results on all subsets of supplied properties + direct oracle",
+            "C05_no_value_law and C05_no_value_never_rejects hold for every element and model class; C05_omitted_exposed composes the placeholder mechanism end to end: for every Element / model class "
+            "and accepted object, a declared property that the value omits and that no patternProperties regex matches is in the result under its Python name holding exactly the outcome of its element's "
+            "no-value call (the default converted as if supplied, as-is when invalid, or the not-passed marker), under the premise of well-formed property maps and no member named like the Python name of "
+            "a renamed property (K13); C05_supplied_wins / C05_supplied_ignores_default: a supplied value is never replaced.  Validate.build is run in Coq on every subset case and must return exactly "
+            "the implementation's result.  Findings K12-K14 recorded; F6 fixed (6ad4bca).",
+            "full under the named premises (pattern-matched defaulted properties are finding K12)"),
     "C04": ("Coq theorem by induction on the element tree (C04_complete: every member of the input at every depth is held by the result) + per-element lemmas on names + refuted witnesses (K8, K13) + vm_compute correspondence of every constructed result + retrieves oracle",
             "C04_complete: for every element tree, oracle and well-formed value, build O e (Some v) = Ok r implies holds r v (scalars unaltered or float(int) under a number schema, arrays item by item "
             "in order, every member of every object of the value held under a key of the result; any nesting, tuple items, pattern/additional members, per-call AllOf, composition branches), under the "
